@@ -140,6 +140,13 @@ impl<'a, T: Read + Seek> QueueReader<'a, T> {
                     }
                 }
 
+                // Without any record with a non-zero bit size the number of points is unknown
+                if min_queue_size == usize::MAX {
+                    Error::not_implemented(
+                        "Point clouds where all records have a bit size of zero",
+                    )?
+                }
+
                 self.parse_byte_streams(min_queue_size)?;
             }
         };
